@@ -114,6 +114,15 @@ def nextDelay (d : Nat) : Option Nat :=
 `⌈ trunc_ns((1 + 0.05 − 2·0.05·j/1000) · e) / 1 s ⌉ = ⌈(10500 − j)·eMs / 10⁷⌉`. -/
 def ttlSec (eMs j : Nat) : Nat := ((10500 - j) * eMs + 9999999) / 10000000
 
+/-- the same computation for a base expiry of `eNs` NANOseconds (the unit of `time.Duration`), in exact
+arithmetic: `time.Duration(factor · base)` truncates to whole nanoseconds, `math.Ceil(d.Seconds())` rounds up
+to seconds.  Agrees with `ttlSec` on whole milliseconds (`Props.ttlSecNs_whole_ms`); it is 0 for `eNs = 1` and a
+draw above 1/2 (`Props.one_nanosecond_expiry_writes_a_persistent_key`). -/
+def ttlSecNs (eNs j : Nat) : Nat := ((10500 - j) * eNs / 10000 + 999999999) / 1000000000
+
+/-- the rounding with fix `fixes/C06-ttl-at-least-one-second.patch` (`ttlSeconds`): never below one second. -/
+def ttlSecondsFixed (eNs j : Nat) : Nat := if ttlSecNs eNs j > 1 then ttlSecNs eNs j else 1
+
 /-- `int(math.Ceil(expire.Seconds()))` for an explicit expiry in ms. -/
 def ceilSec (ms : Nat) : Nat := (ms + 999) / 1000
 
